@@ -92,10 +92,14 @@ def prefix_sid(tokeniser: Any) -> PrefixSid:  # noqa: C901
     get_range = False
     consume_extra = False
     try:
+        if value != '[':
+            raise ValueError('the definition starts with [')
         if value == '[':
             label_sid = tokeniser()
             while True:
                 value = tokeniser()
+                if not value:
+                    raise ValueError('the list is not closed')
                 if value == '[':
                     consume_extra = True
                     continue
@@ -104,6 +108,8 @@ def prefix_sid(tokeniser: Any) -> PrefixSid:  # noqa: C901
                 if value == '(':
                     while True:
                         value = tokeniser()
+                        if not value:
+                            raise ValueError('the SRGB tuple is not closed')
                         if value == ')':
                             break
                         if value == ',':
@@ -124,11 +130,14 @@ def prefix_sid(tokeniser: Any) -> PrefixSid:  # noqa: C901
     except Exception as e:
         raise ValueError(f'could not parse BGP PrefixSid attribute: {e}') from None
 
-    if int(label_sid) < pow(2, 32):
-        sr_attrs.append(SrLabelIndex.make_labelindex(int(label_sid)))
+    # the label index is a 32-bit field, an SRGB base or range a 24-bit one: what does not fit is refused here
+    # (an index of 2^32 and above was dropped without a word, a negative number escaped as struct.error)
+    if not 0 <= int(label_sid) < pow(2, 32):
+        raise ValueError(f'could not parse BGP PrefixSid attribute: label index {label_sid} is not a 32-bit number')
+    sr_attrs.append(SrLabelIndex.make_labelindex(int(label_sid)))
 
     for srgb in srgb_data:
-        if len(srgb) == SRGB_TUPLE_SIZE and int(srgb[0]) < pow(2, 24) and int(srgb[1]) < pow(2, 24):
+        if len(srgb) == SRGB_TUPLE_SIZE and 0 <= int(srgb[0]) < pow(2, 24) and 0 <= int(srgb[1]) < pow(2, 24):
             srgbs.append((int(srgb[0]), int(srgb[1])))
         else:
             raise ValueError('could not parse SRGB tupple')
